@@ -458,6 +458,8 @@ class SymCtx:
 
     def _fail(self, label, kind, model, detail=''):
         self.failures.append(Failure(label, kind, model, detail))
+        if kind == 'violation' and model is not None:
+            self.stats.setdefault('violated', set()).add(label)
 
     def fail(self, label, detail=''):
         """the harness observed a violation directly (e.g. an exception that must not happen)"""
@@ -593,6 +595,10 @@ class SymCtx:
         if not rest:
             self.discharged += 1
             return True
+        if self.opts.get('skip_repeated_violation') and label in self.stats.get('violated', ()):
+            # opt-in: this obligation already has a solver-confirmed counterexample on an earlier path of this case; the
+            # (possibly expensive, possibly `unknown`) model search is not repeated.  Counted as not discharged.
+            return False
         # (a) guided ground models: proposals confirmed by the solver
         free = not self.side
         forms = []
@@ -629,7 +635,11 @@ class SymCtx:
         if self.side_hints:
             # model search only: try the simple solution of the stub contracts proposed by the stubs (e.g. U = V = 1)
             vals = self.__dict__.get('side_hint_values') or []
-            for hs in ((self.side_hints + vals, self.side_hints) if vals else (self.side_hints, )):
+            doms = self.__dict__.get('side_hint_domains') or []
+            stages = [self.side_hints + vals, self.side_hints] if vals else [self.side_hints]
+            if doms:  # weaker proposal: isometry entries in {0, 1, -1} (signed permutations)
+                stages += [doms + vals, doms] if vals else [doms]
+            for hs in stages:
                 r = self._check(*hs, solver=s, timeout_ms=self.opts.get('hint_timeout_ms', 4000))
                 if r == z3.sat:
                     self._fail(label, 'violation', self._model_dict(s.model()),
